@@ -309,7 +309,7 @@ RULE = ("each request (plain QUERY, RD random, with or without an OPT advertisin
 CHECK = {
     "property": "C04",
     "props": "Props/C04.v",
-    "theorems": ["c04_response_within_limit", "c04_tc_shape", "c04_server_limit_steps_partial", "c04_oracle_tc_shape",
+    "theorems": ["c04_response_within_limit", "c04_tc_shape", "c04_limit_value", "c04_udp_response_size", "c04_oracle_tc_shape",
                  "c04_oracle_sizes_and_identity"],
     "allowed_axioms": [],
     "suites": [{
@@ -344,7 +344,7 @@ MANIFEST = {
                    "never in-bailiwick glue' are NOT theorems (they need a limit-monotonicity theorem of the Writer): they are decided "
                    "on every run by the extracted relation pair_check on the real server's two responses to ~2.4k requests tuned to "
                    "within +-40 octets of 512 and of random negotiated sizes, and both responses are compared octet for octet with "
-                   "the model; the server-side value of the negotiated limit is proved only for the two steps that set it."),
+                   "the model; the server-side value of the limit (512 / 65535 / the processed OPT's CLASS clamped to [512, server size]) IS proved, through the whole pre-scan of the server model, and composed with the Writer side for UDP."),
     "level_note": ("Trusted: Coq kernel, extraction, fidelity of the hand-written models (octet-exact differential test on every run), "
                    "C12's Writer invariants (reused), the decoder used by the oracle. Known finding C04-1 (see known_findings.jsonl)."),
     "technique": "machine-checked proof in Coq (invariant lifted through the query model over the Writer model) + octet-exact correspondence on both transports + extracted pair-relation oracle",
